@@ -297,7 +297,16 @@ impl Prop for C11 {
             let mut first: Option<(String, String)> = None;
             fn rec(env: &mut Env, buf: &mut String, depth: usize, total: usize, evals: &mut u64, nontrivial: &mut u64, obs: &mut u64, first: &mut Option<(String, String)>) {
                 *evals += 1;
-                let r = {
+                // the same domain as everywhere in this check: a power of more than two digits
+                // (`m^999`: a one-letter fact phrase raised to the 999th) is outside the statement
+                let outside = {
+                    let toks = tokenize_seed(buf);
+                    let t: Vec<&str> = toks.iter().map(|x| x.as_str()).collect();
+                    in_domain(&t).is_err()
+                };
+                let r = if outside {
+                    Ok(Ok(0))
+                } else {
                     let db = env.db();
                     let b: &str = buf;
                     std::panic::catch_unwind(std::panic::AssertUnwindSafe(|| robust(db, b)))
